@@ -36,6 +36,11 @@ TRUSTED = [
     'modelled: the three loops of fst_traverse.walk (enter with the yield-from nesting for send(True); leave; both) as step '
     'machines over a store (ast.f, fst.a, syntax_ordered_children, check_all_param); replace as _set_ast sees it (FST of the '
     'position kept, old subtree dead, fresh nodes below) and remove as a one-element slice delete',
+    'search(class pattern, nested) is modelled as Search.forwarded (every consumer send is forwarded; search sends False itself only '
+    'when the consumer sent nothing and nested=False) on top of the walk machines, compared on the same scripted histories; '
+    'the scope helpers are swept with deterministic replace / remove / send on every node they yield (walrus targets, first '
+    'iterators, defaults, decorators, bases, annotations, type parameters), all in {False, True, Name}, both directions, '
+    'oracle: an FST instance, alive, in the tree, no repeat, no exception',
     'not modelled: scope=True (_ScopeContext; exercised by the sweep only, observationally compared on list programs where it '
     'must not change anything), asts=, the f.a->None `None` entries of syntax_ordered_children, source text and positions '
     '(the final-tree oracle covers them per run), cut / raw operations (documented as unsupported or lossy during a walk)',
